@@ -1038,8 +1038,8 @@ func splitTopSemi(s string) []string {
 func parseOnCall(rest string) (*OnCall, error) {
 	rest = strings.TrimSpace(strings.TrimSuffix(strings.TrimSpace(rest), ":"))
 	kind, r2, _ := strings.Cut(rest, " ")
-	if kind != "call" && kind != "go" && kind != "defer" {
-		return nil, fmt.Errorf("on: want 'on call|go NAME(...)'")
+	if kind != "call" && kind != "go" && kind != "defer" && kind != "index" {
+		return nil, fmt.Errorf("on: want 'on call|go|index NAME(...)'")
 	}
 	r2 = strings.TrimSpace(r2)
 	oc := &OnCall{}
@@ -1066,6 +1066,10 @@ func parseOnCall(rest string) (*OnCall, error) {
 		}
 	}
 	oc.Callee = r2
+	if kind == "index" {
+		// on index S(k): every read or write S[k] of slice variable S
+		oc.Callee = "index:" + r2
+	}
 	if kind == "go" {
 		oc.Callee = "go:" + r2
 	}
